@@ -32,6 +32,8 @@ CAN_C = {'cFixed', 'ct', 'cx', 'ctx'}
 CAN_X = {'cx', 'tx', 'ctx', 'xFixed'}
 MUST = {'cFixed', 'tFixed', 'ct'}
 GUARD = 1e-9
+SEARCH_TIME_LIMIT = 60
+_ORIG_PUSH = None
 
 
 # ----------------------------------------------------------------------------
@@ -113,7 +115,7 @@ def gen_instance(rng, tier, max_admitted=5, force=None, theme=None):
   params = {'n_test': n_test, 'iroas': rng.choice([1.0, 1.0, 2.0, 0.5, 3.0])}
   npm = rng.choice([90, 90, None, None, 'cut'])
   if npm == 'cut':
-    params['n_pretest_max'] = rng.randint(n_test + 3, n_dates)
+    params['n_pretest_max'] = (n_test + 3) if rng.random() < 0.3 else rng.randint(n_test + 3, n_dates)
   elif npm is not None:
     params['n_pretest_max'] = npm
   if rng.random() < 0.35:
@@ -343,18 +345,32 @@ def design_rec(d, pos):
           'diag_id': id(d.diag), 'score_diag_id': id(d.score.diag)}
 
 
+class SearchTimeout(Exception):
+  pass
+
+
+def _alarm(signum, frame):
+  raise SearchTimeout('search did not terminate within the time limit')
+
+
 def run_real(inst, resolved, which):
   """Fresh objects for every search. Returns dict with 'result' or 'error', push log, geo_index …"""
+  import signal
   from matched_markets.methodology import tbrmmdata, tbrmatchedmarkets, heapdict
   out = {'which': which}
   log = []
+  old = signal.signal(signal.SIGALRM, _alarm)
+  signal.alarm(SEARCH_TIME_LIMIT)        # termination is part of C09: a search that hangs is reported, not waited for
   try:
     par = build_params(inst, resolved)
     data = tbrmmdata.TBRMMData(build_frame(inst), 'response', build_elig(inst))
     mm = tbrmatchedmarkets.TBRMatchedMarkets(data, par)
     out['geo_share'] = {str(k): float(v) for k, v in data.geo_share.items()}
     out['df_order'] = [str(g) for g in data.df.index]
+    global _ORIG_PUSH
     orig_push = heapdict.HeapDict.push
+    if _ORIG_PUSH is None:
+      _ORIG_PUSH = orig_push
 
     def push(self, key, item):
       log.append((sorted(item.treatment_geos), sorted(item.control_geos), [float(v) for v in item.score.score]))
@@ -388,6 +404,13 @@ def run_real(inst, resolved, which):
     import traceback
     out['error_tb'] = traceback.format_exc()[-1500:]
     out['pushlog'] = log
+  finally:
+    signal.alarm(0)
+    signal.signal(signal.SIGALRM, old)
+    try:
+      heapdict.HeapDict.push = _ORIG_PUSH or heapdict.HeapDict.push
+    except Exception:
+      pass
   return out
 
 
